@@ -349,6 +349,15 @@ where
             let e = d.clone();
             dig_digraph(&e)
         }
+        "clone_from" => {
+            let mut e = d.clone();
+            e.clone_from(other?);
+            let mut f = other?.clone();
+            f.clone_from(d);
+            let mut out = dig_digraph(&e);
+            out.extend(dig_digraph(&f));
+            out
+        }
         _ => return None,
     })
 }
@@ -472,6 +481,19 @@ where
         "tarjan" => {
             let mut t = Tarjan::new(&d);
             vec![V::u(t.components().len())]
+        }
+        "dfs" | "dfs_pred" | "bfs_dist" => {
+            let n = d.order();
+            let src: Vec<usize> = d.vertices().filter(|&v| v < n).take(2).collect();
+            let r = catch_unwind(AssertUnwindSafe(|| match consumer {
+                "dfs" => Dfs::new(&d, src.into_iter()).count(),
+                "dfs_pred" => DfsPred::new(&d, src.into_iter()).predecessors().pred.len(),
+                _ => BfsDist::new(&d, src.into_iter()).distances().len(),
+            }));
+            match r {
+                Ok(k) => vec![V::u(k)],
+                Err(_) => vec![V::atom("inner-panic")],
+            }
         }
         "bfs" => {
             // from the vertices that are also valid indices
@@ -628,8 +650,37 @@ where
     vec![oc(), V::L(all), V::atom(if r.is_ok() { "ok" } else { "panic" })]
 }
 
-fn run_it(kind: &str, desc: &Desc, src: &[usize], rounds: usize) -> Option<Vec<V>> {
-    let s = || src.to_vec().into_iter();
+/// The caller's source iterator with the `size_hint` shapes of `filter` (lower 0, exact upper),
+/// `map_while`/`flatten` (lower 0, no upper) and `take_while` over a longer range (upper too large).
+#[derive(Clone)]
+struct Src {
+    v: Vec<usize>,
+    i: usize,
+    shape: usize,
+}
+
+impl Iterator for Src {
+    type Item = usize;
+    fn next(&mut self) -> Option<usize> {
+        let x = self.v.get(self.i).copied();
+        if x.is_some() {
+            self.i += 1;
+        }
+        x
+    }
+    fn size_hint(&self) -> (usize, Option<usize>) {
+        let rem = self.v.len() - self.i;
+        match self.shape {
+            1 => (0, Some(rem)),
+            2 => (0, None),
+            3 => (0, Some(rem + 1000)),
+            _ => (rem, Some(rem)),
+        }
+    }
+}
+
+fn run_it(kind: &str, desc: &Desc, src: &[usize], rounds: usize, shape: usize) -> Option<Vec<V>> {
+    let s = || Src { v: src.to_vec(), i: 0, shape };
     let pair = |(a, b): (usize, usize)| V::L(vec![V::u(a), V::u(b)]);
     let step = |(p, v): (Option<usize>, usize)| V::L(vec![opt(p), V::u(v)]);
     Some(match kind {
@@ -799,6 +850,316 @@ fn run_pt(name: &str, a: &[V]) -> Option<Vec<V>> {
     })
 }
 
+
+// ------------------------------------------------------------------------------- round 2: constructors + everything
+
+fn quiet<F: FnOnce()>(f: F) -> usize {
+    usize::from(catch_unwind(AssertUnwindSafe(f)).is_err())
+}
+
+/// Every query / traversal on a digraph value that some constructor returned. Returns the number
+/// of consumers that panicked (0 for a valid digraph: every argument below is a vertex).
+fn exercise_common<D>(d: &D) -> usize
+where
+    D: Arcs + HasArc + HasEdge + HasWalk + InNeighbors + Indegree + IndegreeSequence + IsComplete
+        + IsRegular + IsSemicomplete + IsSimple + IsTournament + Order + OutNeighbors + Outdegree
+        + Size + Vertices + DegreeSequence,
+{
+    let mut p = 0;
+    for name in [
+        "arcs", "vertices", "order", "size", "degree_sequence", "indegree_sequence", "outdegree_sequence",
+        "semidegree_sequence", "max_degree", "min_degree", "sinks", "sources", "is_balanced", "is_complete", "is_oriented",
+        "is_regular", "is_semicomplete", "is_simple", "is_symmetric", "is_tournament", "tarjan",
+    ] {
+        p += quiet(|| { let _ = q_common(d, name, &[]); });
+    }
+    let vs: Vec<usize> = d.vertices().collect();
+    for &u in &vs {
+        for name in ["out_neighbors", "in_neighbors", "indegree", "outdegree", "degree", "is_source", "is_sink"] {
+            p += quiet(|| { let _ = q_common(d, name, &[V::u(u)]); });
+        }
+    }
+    let n = d.order();
+    let idx: Vec<usize> = vs.iter().copied().filter(|&v| v < n).collect();
+    for srcs in [idx.clone(), idx.iter().copied().take(1).collect(), idx.iter().copied().rev().take(1).collect()] {
+        let s = || srcs.clone().into_iter();
+        p += quiet(|| { let _ = Bfs::new(d, s()).count(); });
+        p += quiet(|| { let _ = BfsDist::new(d, s()).distances(); });
+        p += quiet(|| { let _ = BfsPred::new(d, s()).predecessors(); });
+        p += quiet(|| { let _ = BfsPred::new(d, s()).cycles(); });
+        p += quiet(|| { let _ = BfsPred::new(d, s()).shortest_path(|v| v + 1 == n); });
+        p += quiet(|| { let _ = Dfs::new(d, s()).count(); });
+        p += quiet(|| { let _ = DfsDist::new(d, s()).count(); });
+        p += quiet(|| { let _ = DfsPred::new(d, s()).predecessors(); });
+    }
+    p
+}
+
+fn exercise_unweighted<D>(d: &D) -> usize
+where
+    D: Arcs + HasArc + Order + Size + Vertices + Complement + Converse + Union + Clone + AddArc + RemoveArc,
+{
+    let mut p = 0;
+    for name in ["complement", "converse", "clone_eq"] {
+        p += quiet(|| { let _ = q_unweighted(d, name, &[], None); });
+    }
+    for name in ["union", "is_subdigraph", "is_superdigraph", "is_spanning_subdigraph"] {
+        p += quiet(|| { let _ = q_unweighted(d, name, &[], Some(d)); });
+    }
+    p += quiet(|| { let _ = dig_digraph(&d.complement().converse().union(d)); });
+    p
+}
+
+fn exercise_wu(d: &AdjacencyListWeighted<usize>) -> usize {
+    let mut p = exercise_common(d);
+    let n = d.order();
+    p += quiet(|| { let _ = dig_digraph(&d.converse()); });
+    p += quiet(|| { let _ = d.arcs_weighted().count(); });
+    for s in 0..n {
+        p += quiet(|| { let _ = Dijkstra::new(d, std::iter::once(s)).count(); });
+        p += quiet(|| { let _ = DijkstraDist::new(d, std::iter::once(s)).distances(); });
+        p += quiet(|| { let _ = DijkstraPred::new(d, std::iter::once(s)).predecessors(); });
+        p += quiet(|| { let _ = DijkstraPred::new(d, std::iter::once(s)).shortest_path(|v| v + 1 == n); });
+        p += quiet(|| { let _ = d.out_neighbors_weighted(s).count(); });
+        p += quiet(|| { let _ = BellmanFordMoore::new(d, s); });
+    }
+    p
+}
+
+fn exercise_wi(d: &AdjacencyListWeighted<isize>) -> usize {
+    let mut p = exercise_common(d);
+    let n = d.order();
+    p += quiet(|| { let _ = dig_digraph(&d.converse()); });
+    p += quiet(|| { let _ = d.arcs_weighted().count(); });
+    for s in 0..n {
+        p += quiet(|| { let mut x = BellmanFordMoore::new(d, s); let _ = x.distances().map(<[isize]>::len); });
+        p += quiet(|| { let _ = d.out_neighbors_weighted(s).count(); });
+    }
+    p += quiet(|| { let mut x = FloydWarshall::new(d); let m = x.distances(); let _ = (m.center(), m.is_connected()); });
+    p
+}
+
+/// `From<rows | maps | pairs>` of every representation, then — when the constructor returned —
+/// every operation and algorithm on the result.
+fn run_rows_all(repr: &str, rows: &V) -> Option<Vec<V>> {
+    let out = |order: usize, p: usize| Some(vec![V::u(order), V::u(p)]);
+    match repr {
+        "al" => {
+            let d = AdjacencyList::from(rows_sets(rows)?);
+            let mut p = exercise_common(&d) + exercise_unweighted(&d);
+            p += quiet(|| { let _ = AdjacencyMap::from(d.clone()); });
+            p += quiet(|| { let _ = AdjacencyMatrix::from(d.clone()); });
+            p += quiet(|| { let _ = EdgeList::from(d.clone()); });
+            p += quiet(|| { let _ = AdjacencyListWeighted::<usize>::from(d.clone()); });
+            out(d.order(), p)
+        }
+        "am" => {
+            let d = AdjacencyMap::from(rows_sets(rows)?);
+            let mut p = exercise_common(&d) + exercise_unweighted(&d);
+            p += quiet(|| { let _ = Johnson75::new(&d).circuits(); });
+            p += quiet(|| { let _ = d.filter_vertices(|v| v % 2 == 0); });
+            p += quiet(|| { let _ = AdjacencyList::from(d.clone()); });
+            p += quiet(|| { let _ = AdjacencyMatrix::from(d.clone()); });
+            p += quiet(|| { let _ = EdgeList::from(d.clone()); });
+            p += quiet(|| { let _ = AdjacencyListWeighted::<isize>::from(d.clone()); });
+            out(d.order(), p)
+        }
+        "mx" => {
+            let d = AdjacencyMatrix::from(rows.as_pairs()?);
+            let mut p = exercise_common(&d) + exercise_unweighted(&d);
+            p += quiet(|| { let _ = AdjacencyList::from(d.clone()); });
+            p += quiet(|| { let _ = AdjacencyMap::from(d.clone()); });
+            p += quiet(|| { let _ = EdgeList::from(d.clone()); });
+            out(d.order(), p)
+        }
+        "el" => {
+            let d = EdgeList::from(rows.as_pairs()?);
+            let mut p = exercise_common(&d) + exercise_unweighted(&d);
+            p += quiet(|| { let _ = AdjacencyList::from(d.clone()); });
+            p += quiet(|| { let _ = AdjacencyMap::from(d.clone()); });
+            p += quiet(|| { let _ = AdjacencyMatrix::from(d.clone()); });
+            out(d.order(), p)
+        }
+        "wu" => {
+            let rows: Vec<BTreeMap<usize, usize>> = rows_maps(rows)?
+                .into_iter()
+                .map(|m| m.into_iter().map(|(k, w)| (k, w as usize)).collect())
+                .collect();
+            let d = AdjacencyListWeighted::<usize>::from(rows);
+            let p = exercise_wu(&d);
+            out(d.order(), p)
+        }
+        "wi" => {
+            let rows: Vec<BTreeMap<usize, isize>> = rows_maps(rows)?
+                .into_iter()
+                .map(|m| m.into_iter().map(|(k, w)| (k, w as isize)).collect())
+                .collect();
+            let d = AdjacencyListWeighted::<isize>::from(rows);
+            let p = exercise_wi(&d);
+            out(d.order(), p)
+        }
+        _ => None,
+    }
+}
+
+// ------------------------------------------------------------------------------- round 2: re-polled iterators
+
+/// Drain, then poll three more times: `[items before the first None, items after it]`.
+fn poll<I: Iterator>(mut it: I) -> Vec<V> {
+    let mut n = 0usize;
+    while it.next().is_some() {
+        n += 1;
+        if n > 10_000_000 {
+            break;
+        }
+    }
+    let mut late = 0usize;
+    for _ in 0..3 {
+        if it.next().is_some() {
+            late += 1;
+        }
+    }
+    vec![V::u(n), V::u(late)]
+}
+
+/// Two iterators polled alternately; an exhausted one keeps being polled until the other ends
+/// (+ two rounds): `[items of a, items of b, items after a's / b's first None]`.
+fn interleave<I: Iterator, J: Iterator>(mut a: I, mut b: J) -> Vec<V> {
+    let (mut na, mut nb, mut late) = (0usize, 0usize, 0usize);
+    let (mut ea, mut eb) = (false, false);
+    let mut extra = 0;
+    while extra < 2 && na + nb < 10_000_000 {
+        match a.next() {
+            Some(_) => { if ea { late += 1 } else { na += 1 } }
+            None => ea = true,
+        }
+        match b.next() {
+            Some(_) => { if eb { late += 1 } else { nb += 1 } }
+            None => eb = true,
+        }
+        if ea && eb {
+            extra += 1;
+        }
+    }
+    vec![V::u(na), V::u(nb), V::u(late)]
+}
+
+macro_rules! iter_of {
+    ($d:expr, $name:expr, $x:expr, $k:ident => $body:expr) => {{
+        let d = $d;
+        let x: Option<usize> = $x;
+        match $name {
+            "arcs" => { let $k = d.arcs(); Some($body) }
+            "vertices" => { let $k = d.vertices(); Some($body) }
+            "out_neighbors" => { let $k = d.out_neighbors(x?); Some($body) }
+            "in_neighbors" => { let $k = d.in_neighbors(x?); Some($body) }
+            "sinks" => { let $k = d.sinks(); Some($body) }
+            "sources" => { let $k = d.sources(); Some($body) }
+            "degree_sequence" => { let $k = d.degree_sequence(); Some($body) }
+            "indegree_sequence" => { let $k = d.indegree_sequence(); Some($body) }
+            "outdegree_sequence" => { let $k = d.outdegree_sequence(); Some($body) }
+            "semidegree_sequence" => { let $k = d.semidegree_sequence(); Some($body) }
+            _ => None,
+        }
+    }};
+}
+
+fn run_repoll(name: &str, desc: &Desc, x: Option<usize>) -> Option<Vec<V>> {
+    match (name, desc.repr.as_str()) {
+        ("arcs_weighted", "wu") => { let d = desc.build_wu(); let r = poll(d.arcs_weighted()); Some(r) }
+        ("arcs_weighted", "wi") => { let d = desc.build_wi(); let r = poll(d.arcs_weighted()); Some(r) }
+        ("out_neighbors_weighted", "wu") => { let d = desc.build_wu(); let r = poll(d.out_neighbors_weighted(x?)); Some(r) }
+        ("out_neighbors_weighted", "wi") => { let d = desc.build_wi(); let r = poll(d.out_neighbors_weighted(x?)); Some(r) }
+        _ => with_digraph!(desc, d => iter_of!(&d, name, x, it => poll(it))),
+    }
+}
+
+fn run_interleave(name: &str, d1: &Desc, d2: &Desc, x: Option<usize>) -> Option<Vec<V>> {
+    if d1.repr != d2.repr {
+        return None;
+    }
+    macro_rules! two {
+        ($b:ident) => {{
+            let a = d1.$b();
+            let b = d2.$b();
+            iter_of!(&a, name, x, ia => { let r: Option<Vec<V>> = iter_of!(&b, name, x, ib => interleave(ia, ib)); r? })
+        }};
+    }
+    match d1.repr.as_str() {
+        "al" => two!(build_al),
+        "am" => two!(build_am),
+        "mx" => two!(build_mx),
+        "el" => two!(build_el),
+        "wu" => two!(build_wu),
+        "wi" => two!(build_wi),
+        _ => None,
+    }
+}
+
+/// The same entry point called three times on the SAME object.
+fn run_twice(name: &str, desc: &Desc, a: &[V]) -> Option<Vec<V>> {
+    let src = a.first().and_then(V::as_usizes).unwrap_or_default();
+    let s = || src.clone().into_iter();
+    Some(match name {
+        "bfs_dist_distances" => with_digraph!(desc, d => {
+            let mut x = BfsDist::new(&d, s());
+            let (a, b, c) = (x.distances(), x.distances(), x.distances());
+            vec![V::u(a.len()), V::u(b.len()), V::u(c.len())]
+        }),
+        "bfs_pred_predecessors" => with_digraph!(desc, d => {
+            let mut x = BfsPred::new(&d, s());
+            let (a, b) = (x.predecessors(), x.predecessors());
+            let c = x.cycles();
+            let e = x.shortest_path(|_| true);
+            vec![V::u(a.pred.len()), V::u(b.pred.len()), V::u(c.len()), V::bool(e.is_some())]
+        }),
+        "dfs_pred_predecessors" => with_digraph!(desc, d => {
+            let mut x = DfsPred::new(&d, s());
+            let (a, b, c) = (x.predecessors(), x.predecessors(), x.predecessors());
+            vec![V::u(a.pred.len()), V::u(b.pred.len()), V::u(c.pred.len())]
+        }),
+        "tarjan" => with_digraph!(desc, d => {
+            let mut t = Tarjan::new(&d);
+            let a = t.components().len();
+            let b = t.components().len();
+            let c = t.components().len();
+            vec![V::u(a), V::u(b), V::u(c)]
+        }),
+        "johnson" if desc.repr == "am" => {
+            let d = desc.build_am();
+            let mut j = Johnson75::new(&d);
+            let (a, b, c) = (j.circuits().len(), j.circuits().len(), j.circuits().len());
+            vec![V::u(a), V::u(b), V::u(c)]
+        }
+        "dijkstra" if desc.repr == "wu" => {
+            let d = desc.build_wu();
+            let mut x = DijkstraDist::new(&d, s());
+            let (a, b) = (x.distances(), x.distances());
+            let mut y = DijkstraPred::new(&d, s());
+            let (c, e) = (y.predecessors(), y.predecessors());
+            let f = y.shortest_path(|_| true);
+            vec![V::u(a.len()), V::u(b.len()), V::u(c.pred.len()), V::u(e.pred.len()), V::bool(f.is_some())]
+        }
+        "bfm" if desc.repr == "wi" => {
+            let d = desc.build_wi();
+            let mut x = BellmanFordMoore::new(&d, *src.first()?);
+            let a = x.distances().map(<[isize]>::len);
+            let b = x.distances().map(<[isize]>::len);
+            let c = x.distances().map(<[isize]>::len);
+            vec![V::opt_u(a), V::opt_u(b), V::opt_u(c)]
+        }
+        "fw" if desc.repr == "wi" => {
+            let d = desc.build_wi();
+            let mut x = FloydWarshall::new(&d);
+            let a = x.distances().dist.len();
+            let b = x.distances().dist.len();
+            let c = x.distances().dist.len();
+            vec![V::u(a), V::u(b), V::u(c)]
+        }
+        _ => return None,
+    })
+}
+
 // ------------------------------------------------------------------------------- dispatch
 
 /// One program. `None` = not a C13 op / malformed.
@@ -813,6 +1174,41 @@ fn run(op: &str, args: &[V]) -> Option<Vec<V>> {
             let repr = args.first()?.as_atom()?.to_string();
             let rows = args.get(1)?;
             class(|| run_rows(&repr, rows))
+        }
+        "chk_rows_all" => {
+            let repr = args.first()?.as_atom()?.to_string();
+            let rows = args.get(1)?;
+            class(|| run_rows_all(&repr, rows))
+        }
+        "chk_repoll" => {
+            let name = args.first()?.as_atom()?.to_string();
+            if name == "dm_eccentricities" || name == "dm_periphery" {
+                let rest = &args[1..];
+                return class(|| {
+                    let dist: Vec<isize> = rest.first()?.as_list()?.iter().map(V::as_isize).collect::<Option<_>>()?;
+                    let mut m = DistanceMatrix::<isize>::new(1, 0);
+                    m.dist = dist;
+                    m.infinity = rest.get(1)?.as_isize()?;
+                    m.order = rest.get(2)?.as_usize()?;
+                    let r = if name == "dm_periphery" { poll(m.periphery()) } else { poll(m.eccentricities()) };
+                    Some(r)
+                });
+            }
+            let desc = Desc::parse(args.get(1)?)?;
+            let x = args.get(2).and_then(V::as_usize);
+            class(|| run_repoll(&name, &desc, x))
+        }
+        "chk_interleave" => {
+            let name = args.first()?.as_atom()?.to_string();
+            let d1 = Desc::parse(args.get(1)?)?;
+            let d2 = Desc::parse(args.get(2)?)?;
+            let x = args.get(3).and_then(V::as_usize);
+            class(|| run_interleave(&name, &d1, &d2, x))
+        }
+        "chk_twice" => {
+            let name = args.first()?.as_atom()?.to_string();
+            let desc = Desc::parse(args.get(1)?)?;
+            class(|| run_twice(&name, &desc, &args[2..]))
         }
         "chk_from" => {
             let src = Desc::parse(args.first()?)?;
@@ -845,8 +1241,9 @@ fn run(op: &str, args: &[V]) -> Option<Vec<V>> {
             let desc = Desc::parse(args.get(1)?)?;
             let src = args.get(2)?.as_usizes()?;
             let rounds = args.get(3)?.as_usize()?.clamp(1, 4);
+            let shape = args.get(4).and_then(V::as_usize).unwrap_or(0);
             // building the digraph may itself panic (it must not for generated descriptions)
-            match catch_unwind(AssertUnwindSafe(|| run_it(kind, &desc, &src, rounds))) {
+            match catch_unwind(AssertUnwindSafe(|| run_it(kind, &desc, &src, rounds, shape))) {
                 Ok(r) => r,
                 Err(_) => Some(vec![oc(), V::atom("build-panic")]),
             }
